@@ -66,7 +66,7 @@ func (s *c02Session) builder(m c02Member, ctx *big.Int) (ProofBuilder, error) {
 		return ab, nil
 	}
 	nonrev := m.kind == "disc+nonrev" || m.kind == "disc+nonrev+range"
-	withRange := m.kind == "disc+range" || m.kind == "disc+nonrev+range"
+	withRange := m.kind == "disc+range" || m.kind == "disc+nonrev+range" || m.kind == "disc+range2"
 	attrs := []*big.Int{bi(11), bi(5000), bi(33)}
 	var cred *Credential
 	if nonrev {
@@ -93,6 +93,13 @@ func (s *c02Session) builder(m c02Member, ctx *big.Int) (ProofBuilder, error) {
 			return nil, err
 		}
 		stmts = map[int][]*rangeproof.Statement{2: {st}}
+		if m.kind == "disc+range2" { // two statements on the same attribute
+			st2, err := rangeproof.NewStatement(rangeproof.LesserOrEqual, bi(6000))
+			if err != nil {
+				return nil, err
+			}
+			stmts[2] = append(stmts[2], st2)
+		}
 	}
 	return cred.CreateDisclosureProofBuilder([]int{1}, stmts, nonrev)
 }
